@@ -302,6 +302,7 @@ def build(tier, seed):
         subs = [["v5x4", S, [0, 0]] for S in T.connected_subsets(bases.get("v5x4"))]
         sq = [["square3x3", S, [0, 0]] for S in T.connected_subsets(bases.get("square3x3"), min_size=2, max_size=5)]
         return [Resampling("fourfold-border-junctions", sq + [["lens", None, [0, 0]]], [0, 1, 3], [2, 3, 6], 1),
+                Resampling("wheels-and-fans", [["wheel7", None, [0, 0]], ["wheel5", None, [-3, 2]], ["fan5", None, [0, 0]]], [0, 1, 2, 4], [1, 2, 3], 2, "same"),
                 Resampling("lengths", [["v5x5", b6, [0, 0]], ["v5x5", b6, [-9, -7]]], list(range(0, 41)), list(range(1, 13)), 2, "same"),
                 Resampling("mixed", [["v5x5", b6, [3, -8]]], [["mod3", 0, 4, 11], ["mod3", 7, 1, 0], ["mod3", 2, 17, 5]], [1, 2, 3, 4, 6, 9], 2),
                 Resampling("subtissues", subs, [0, 1, 5], [1, 2, 3, 6], 1),
@@ -309,6 +310,7 @@ def build(tier, seed):
     subs = [["v5x5", S, [-6, -6]] for S in T.connected_subsets(bases.get("v5x5"))]
     sq = [["square3x3", S, [-2, -2]] for S in T.connected_subsets(bases.get("square3x3"), min_size=2)]
     return [Resampling("fourfold-border-junctions", sq + [["lens", None, [0, 0]], ["hex3x3", None, [0, 0]]], [0, 1, 3], [2, 3, 6], 2, "same"),
+            Resampling("wheels-and-fans", [["wheel7", None, [0, 0]], ["wheel5", None, [-3, 2]], ["wheel4", None, [0, 0]], ["fan5", None, [0, 0]], ["fan6", None, [2, 2]]], [0, 1, 2, 4, 9], [1, 2, 3, 5], 3),
             Resampling("lengths", [["v5x5", None, [0, 0]], ["v5x5", None, [-9, -7]], ["v6x5", None, [-3, 4]]], list(range(0, 41)), list(range(1, 13)), 2, "same"),
             Resampling("mixed", [["v5x5", None, [3, -8]], ["v6x5", None, [0, 0]]], [["mod3", 0, 4, 11], ["mod3", 7, 1, 0], ["mod3", 2, 17, 5], ["mod3", 40, 0, 3]], list(range(1, 13)), 3),
             Resampling("subtissues", subs, [0, 1, 5], [1, 2, 3, 6], 2, "same"),
